@@ -295,12 +295,15 @@ def norm_real(v):
         return ("num", Fraction(v), True)
     if isinstance(v, str):
         return ("str", v)
+    # member names are strings on the unchanged tree; a changed tree may produce other keys
+    # (e.g. None for a property that was never bound): they must still give a normal form
+    skey = lambda kv: (str(type(kv[0]).__name__), str(kv[0]))     # noqa: E731
     if isinstance(v, Model):
-        return ("model", tuple(sorted((k, norm_real(x)) for k, x in v.members)))
+        return ("model", tuple(sorted(((k, norm_real(x)) for k, x in v.members), key=skey)))
     if isinstance(v, Anon):
-        return ("anon", tuple(sorted((k, norm_real(x)) for k, x in v.members)))
+        return ("anon", tuple(sorted(((k, norm_real(x)) for k, x in v.members), key=skey)))
     if isinstance(v, (list, tuple)):
         return ("arr", tuple(norm_real(x) for x in v))
     if isinstance(v, dict):
-        return ("obj", tuple(sorted((k, norm_real(x)) for k, x in v.items())))
+        return ("obj", tuple(sorted(((k, norm_real(x)) for k, x in v.items()), key=skey)))
     raise ValueError(type(v))
